@@ -594,8 +594,10 @@ class CooperativeAwarenessMessage:
             float("inf"): "outOfRange",
         }
 
+        # TS 102 894-2: class alt-xxx-yy applies "if the confidence value is equal to or less than"
+        # its bound (and greater than the previous one); outOfRange only above 200 m.
         for key in sorted(altitude_confidence_map.keys()):
-            if epv < key:
+            if epv <= key:
                 return altitude_confidence_map[key]
 
         return "unavailable"
